@@ -22,6 +22,11 @@ TEXT = {
         "note": _NOTE + "equality of implementation and reference is by correspondence on generated calls (partial).",
         "technique": "Coq proof of the laws of a Gallina reference semantics + correspondence of every generated call by vm_compute + implementation-side algebraic cross-checks",
     },
+    "C14": {
+        "level": "A Gallina reference covers the numeric functions on the bit-exact big-float model (arithmetic, comparison, min/max, int, ceil, floor, signum, parseint) and the byte- and cluster-level string functions (chomp, indent, trimprefix/suffix, replace, split, join, strlen, reverse, substr), plus jsonencode through the JSON model of C15. Theorems, for all inputs: floor is the greatest integer not above and ceil the least integer not below any finite number of any magnitude and precision; they coincide exactly on whole numbers; trimprefix/suffix remove exactly the affix; cluster reverse is an involution and substr selects whole clusters; chomp removes all and only trailing newlines; join inverts split. Every generated call is compared with the Gallina reference where there is one and with Go's standard library (strings, fmt, math, big.Rat, time, encoding/csv, encoding/json via the C15 model) otherwise.",
+        "note": _NOTE + "17 functions are decided against Go's standard library only (partial); two fix: commits (signum, substr).",
+        "technique": "Coq proof of the laws of a Gallina reference semantics + correspondence by vm_compute + implementation-side reference oracles built on Go's standard library",
+    },
     "C15": {
         "level": "cty/json Marshal, Unmarshal and ImpliedType are modelled at the JSON token-tree level. Theorems: unknown, marked and infinite values are rejected; strings, booleans and nulls round-trip; at a dynamic position the encoder writes exactly the documented wrapper and the decoder reduces it to decoding against the recovered type. The integer-text loss is refuted by a kernel-computed witness (known finding). Every generated value x constraint and every grammar document is encoded/decoded by the implementation, compared token tree by token tree with the model, and the round-trip / mirror / implied-type clauses are evaluated on both sides.",
         "note": _NOTE + "encoding/json's lexer is the byte-level mapping on both sides; two known findings (integer text, nested placeholders).",
